@@ -171,21 +171,21 @@ def havoc_heap(ex, st, ws):
             ty = rv.ty
             r = rv.t
             if isinstance(ty, T.List):
-                ex.h.list_set_len(st, r, z3.Int(T.fresh_name("hv.len")))
-                st.pc.append(ex.h.list_len(st, r) >= 0)
+                ex.h.list_set_len(st, r, z3.Int(T.fresh_name("hv.len")), ty)
+                st.pc.append(ex.h.list_len(st, r, ty) >= 0)
                 for k, srt in enumerate(ty.t.sorts()):
-                    key = f"$e:{ty.t.sig()}#{k}"
+                    key = ty.k_elem(k)
                     a = ex.h.arr(st, key, [Obj, z3.IntSort()], srt)
                     st.heap[key] = z3.Store(a, r, z3.Const(T.fresh_name("hv.elems"), z3.ArraySort(z3.IntSort(), srt)))
                 for k in ty.ghost_sum:
                     ex.h.list_set_sum(st, ty, r, k, z3.Real(T.fresh_name("hv.sum")))
             elif isinstance(ty, T.Dict):
                 ks = ex.h._ks(ty)
-                key = f"$dom:{ty.k.sig()}"
+                key = ty.k_dom()
                 a = ex.h.arr(st, key, [Obj, ks], z3.BoolSort())
                 st.heap[key] = z3.Store(a, r, z3.Const(T.fresh_name("hv.dom"), z3.ArraySort(ks, z3.BoolSort())))
                 for j, srt in enumerate(ty.v.sorts()):
-                    key = f"$dv:{ty.k.sig()}:{ty.v.sig()}#{j}"
+                    key = ty.k_val(j)
                     a = ex.h.arr(st, key, [Obj, ks], srt)
                     st.heap[key] = z3.Store(a, r, z3.Const(T.fresh_name("hv.vals"), z3.ArraySort(ks, srt)))
 
@@ -217,14 +217,14 @@ def iter_domain(ex, s: ast.For, st):
         lv = T.opt_inner(ex.ev(it.args[0], st))
         if not isinstance(lv.ty, T.List):
             raise Unsupported(f"enumerate over {lv.ty}", s)
-        return IterDom(ex.h.list_len(st, lv.t),
+        return IterDom(ex.h.list_len(st, lv.t, lv.ty),
                        lambda i, st2: T.mk_tuple([T.mk_int(i), ex.h.list_get(st2, lv.ty, lv.t, i)]), "list")
     lv = ex.ev(it, st)
     if isinstance(lv.ty, T.Opt):
         ex.oblige(st, "safety", f"none-iter@{s.lineno}", z3.Not(lv.terms[0]), s, "iteration over None")
         lv = T.opt_inner(lv)
     if isinstance(lv.ty, T.List):
-        return IterDom(ex.h.list_len(st, lv.t), lambda i, st2: ex.h.list_get(st2, lv.ty, lv.t, i), "list")
+        return IterDom(ex.h.list_len(st, lv.t, lv.ty), lambda i, st2: ex.h.list_get(st2, lv.ty, lv.t, i), "list")
     if isinstance(lv.ty, T.Ref):
         itf = REG.classes.get(lv.ty.cls, {}).get("iter")
         if itf:
@@ -490,17 +490,21 @@ def exec_while(ex, s: ast.While, st):
     invs = [(f"inv{k}", c) if isinstance(c, str) else c for k, c in enumerate(spec.get("inv") or [])]
     outs = []
 
-    def inv_terms(state):
-        return [(lab, ex.spec_bool(state, src, dict(state.env), old_state=ex.entry_state)) for lab, src in invs]
+    def inv_terms(state, k):
+        env = dict(state.env)
+        env["_k"] = T.mk_int(k)          # ghost: number of completed iterations
+        return [(lab, ex.spec_bool(state, src, env, old_state=ex.entry_state)) for lab, src in invs]
 
-    for lab, g in inv_terms(st):
+    for lab, g in inv_terms(st, z3.IntVal(0)):
         ex.oblige(st, "inv-init", f"L{ordn}.{lab}", g, s)
 
     # arbitrary iteration
     st1 = st.fork()
     _havoc_locals(ex, st1, names, spec)
     havoc_heap(ex, st1, keys)
-    for lab, g in inv_terms(st1):
+    kk = z3.Int(T.fresh_name(f"k_L{ordn}"))
+    st1.pc.append(kk >= 0)
+    for lab, g in inv_terms(st1, kk):
         st1.pc.append(g)
     c1 = ex.truthy(st1, ex.ev(s.test, st1))
     st1b = st1.fork()
@@ -509,14 +513,18 @@ def exec_while(ex, s: ast.While, st):
         st1b.trace.append(f"W{ordn}*")
         dec0 = None
         if spec.get("decreases"):
-            dec0 = ex.spec_eval(st1b, spec["decreases"], dict(st1b.env), old_state=ex.entry_state)
+            env0 = dict(st1b.env)
+            env0["_k"] = T.mk_int(kk)
+            dec0 = ex.spec_eval(st1b, spec["decreases"], env0, old_state=ex.entry_state)
             ex.oblige(st1b, "decreases", f"L{ordn}.bounded", ex.num(dec0) >= 0, s, "variant bounded below")
         for o in ex.run_block(s.body, st1b):
             if o.kind in ("normal", "continue"):
-                for lab, g in inv_terms(o.st):
+                for lab, g in inv_terms(o.st, kk + 1):
                     ex.oblige(o.st, "inv-pres", f"L{ordn}.{lab}", g, s)
                 if dec0 is not None:
-                    dec1 = ex.spec_eval(o.st, spec["decreases"], dict(o.st.env), old_state=ex.entry_state)
+                    env1 = dict(o.st.env)
+                    env1["_k"] = T.mk_int(kk + 1)
+                    dec1 = ex.spec_eval(o.st, spec["decreases"], env1, old_state=ex.entry_state)
                     ex.oblige(o.st, "decreases", f"L{ordn}.strict", ex.num(dec1) < ex.num(dec0), s,
                               "variant strictly decreases")
             elif o.kind == "break":
